@@ -81,6 +81,20 @@ impl Compile for DotLookupOption {
     }
 }
 
+impl super::Dependencies for DotChain {
+    fn dependencies(&self) -> Vec<super::Dependency> {
+        let mut result = vec![];
+
+        for link in &self.links {
+            if let DotLookupOption::FunctionCall { arguments, .. } = link {
+                result.append(&mut super::Dependencies::net_dependencies(arguments));
+            }
+        }
+
+        result
+    }
+}
+
 impl Compile for DotChain {
     fn compile(
         &self,
